@@ -46,25 +46,27 @@ forced clears, the state after the next complete check has no cache older than i
 (`hT`: every first use in the history is a kernel of a known table; without it the statement is false, see
 `reachable_then_check_fresh_unrestricted_false`) -/
 theorem reachable_then_check_fresh (ops : List Op)
-    (hT : ∀ p t name, Op.firstUse p t name ∈ ops → t < nTables) :
+    (hT : ∀ p t k sg, Op.firstUse p t k sg ∈ ops → t < nTables) :
     MtimeFresh (step (run ops) (.importCheck none)) :=
   complete_check_mtime_fresh (run ops) (tablesKnown_run ops hT)
 
 /-- a history is *atomic* when no process compiles from a table version older than the current one, i.e. no
-table update falls between a process loading a table and that process's first use of a kernel whose cache
-file is absent -/
+table update falls between a process loading a table and that process's first use of a kernel whose data
+file for that argument signature is absent -/
 def AtomicFirstUse : St → List Op → Prop
   | _, [] => True
   | s, op :: rest =>
     (match op with
-     | .firstUse p t name =>
-        (s.files.any (fun f => f.table == t && f.name == name)) ∨
+     | .firstUse p t k sg =>
+        (s.files.any (fun f => f.table == t && f.kernel == k && f.sig == some sg)) ∨
         (∀ pr, s.procs[p]? = some pr → ∀ v, lookupLoaded pr t = some v → v = s.tableVersion t)
      | _ => True) ∧ AtomicFirstUse (step s op) rest
 
-/-- invariant linking what the code can see (mtimes) to what the property is about (content): every cache
-file built from an older table version is older than the table -/
-def StaleIsOld (s : St) : Prop := ∀ f ∈ s.files, f.builtFrom ≠ s.tableVersion f.table → f.mtime < s.tableMtime f.table
+/-- invariant linking what the code can see (mtimes) to what the property is about (content): every data
+file (compiled kernel) built from an older table version is older than the table.  Index files carry no table
+values - their `builtFrom` is meaningless - so nothing is said about them -/
+def StaleIsOld (s : St) : Prop :=
+  ∀ f ∈ s.files, f.isData = true → f.builtFrom ≠ s.tableVersion f.table → f.mtime < s.tableMtime f.table
 
 theorem atomic_stale_is_old (ops : List Op) (h : AtomicFirstUse init ops) : StaleIsOld (run ops) := by
   have key : ∀ (ops : List Op) (s : St), Inv s → AtomicFirstUse s ops → Inv (ops.foldl step s) := by
@@ -78,30 +80,60 @@ theorem atomic_stale_is_old (ops : List Op) (h : AtomicFirstUse init ops) : Stal
   exact (key ops init inv_init h).stale
 
 /-- content-level statement of the property for atomic histories: after the next complete check every
-surviving cache was compiled from the current table, so lookups return values of the current tables
-(`hT`: every first use in the history is a kernel of a known table; without it the statement is false:
-`[.spawn, .firstUse 0 2 0, .touchTable 2]` is atomic and leaves a stale cache of the unknown table 2) -/
+surviving compiled kernel (data file) was compiled from the current table, so lookups return values of the current
+tables (`hT`: every first use in the history is a kernel of a known table; without it the statement is false:
+`[.spawn, .firstUse 0 2 0 0, .touchTable 2]` is atomic and leaves a stale cache of the unknown table 2, see
+`Proofs/CacheCex.lean`) -/
 theorem atomic_then_check_content_fresh (ops : List Op) (h : AtomicFirstUse init ops)
-    (hT : ∀ p t name, Op.firstUse p t name ∈ ops → t < nTables) :
+    (hT : ∀ p t k sg, Op.firstUse p t k sg ∈ ops → t < nTables) :
     ContentFresh (step (run ops) (.importCheck none)) := by
-  intro f hf
+  intro f hf hd
   have hfresh := reachable_then_check_fresh ops hT f hf
   rw [step_importCheck_tableMtime] at hfresh
   rw [step_importCheck_tableVersion]
   have hmem := interrupted_subset (run ops) none f hf
-  have hstale := atomic_stale_is_old ops h f hmem
+  have hstale := atomic_stale_is_old ops h f hmem hd
   apply Classical.byContradiction
   intro hne
   exact absurd (hstale hne) (Nat.not_lt.mpr hfresh)
 
 /-- the full-strength statement (no atomicity assumption) is FALSE: a process that loaded the table before an
-update and first-uses a kernel after it writes a cache that is newer than the table but built from the old
-one, and the next check keeps it (recorded as a known finding and replayed on the real code) -/
-def witnessOps : List Op := [.spawn, .load 0 0, .touchTable 0, .firstUse 0 0 7, .importCheck none]
+update and first-uses a kernel after it writes a data file (and the kernel's index file) that is newer than the
+table but built from the old one, and the next check keeps it (recorded as a known finding and replayed on the real
+code) -/
+def witnessOps : List Op := [.spawn, .load 0 0, .touchTable 0, .firstUse 0 0 7 0, .importCheck none]
 theorem content_fresh_fails_without_atomicity : ¬ ContentFresh (run witnessOps) := by
   intro h
-  have := h ⟨0, 7, 4, 0⟩ (by decide)
+  have := h ⟨0, 7, some 0, 4, 0⟩ (by decide) rfl
   revert this
+  decide
+
+/-! ### Index files versus data files -/
+
+/-- rewriting a kernel's index file (compiling the kernel for another signature) never hides an older data file: after the
+next complete check no data file older than its table is left, whatever was compiled in between -/
+theorem stale_data_not_hidden_by_index_rewrite (ops : List Op) (hT : ∀ p t k sg, Op.firstUse p t k sg ∈ ops → t < nTables) :
+    ∀ f ∈ (step (run ops) (.importCheck none)).files, f.isData = true →
+      (step (run ops) (.importCheck none)).tableMtime f.table ≤ f.mtime :=
+  fun f hf _ => reachable_then_check_fresh ops hT f hf
+
+/-- process 0 compiles kernel 1 for signature 0; the table is replaced; a new process compiles the same kernel for signature 1
+(the index file is rewritten and is now newer than the table, the first data file is still the old one): the next check
+removes all three files -/
+theorem index_rewrite_example :
+    (run [.spawn, .firstUse 0 0 1 0, .touchTable 0, .spawn, .firstUse 1 0 1 1, .importCheck none]).files = [] := by decide
+
+/-- just before that check: the table was replaced at time 3; the kernel's index file was rewritten at time 5 and is
+NEWER than the table, the data file of signature 0 (time 2, built from table version 0, table now at version 1) is
+OLDER, the data file of signature 1 is new and current.  A criterion looking at index files only would keep
+everything, including the stale data file; the glob `*.nb[ci]` + minimum-mtime criterion of the code sees the old
+data file. -/
+example :
+    let s := run [.spawn, .firstUse 0 0 1 0, .touchTable 0, .spawn, .firstUse 1 0 1 1]
+    s.files = [⟨0, 1, none, 5, 0⟩, ⟨0, 1, some 0, 2, 0⟩, ⟨0, 1, some 1, 5, 1⟩] ∧
+    s.tableMtime 0 = 3 ∧ s.tableVersion 0 = 1 ∧
+    (∀ f ∈ s.files, f.isData = false → s.tableMtime f.table ≤ f.mtime) ∧
+    (∃ f ∈ s.files, f.isData = true ∧ f.mtime < s.tableMtime f.table ∧ f.builtFrom ≠ s.tableVersion f.table) := by
   decide
 
 end Pybes3Verif.Cache
